@@ -166,24 +166,6 @@ def stereo_mol_graph_to_rdmol(
 
     map_num_idx_dict = {v: k for k, v in idx_map_num_dict.items()}
 
-    # The bonds of octahedral centres are re-created in the order that the
-    # permutation labels OH1 / OH2 refer to. This changes the neighbour order
-    # of the ligand atoms as well, so it has to be done before any chiral tag
-    # that depends on a neighbour order is assigned.
-    for atom in graph.atoms:
-        a_stereo = graph.get_atom_stereo(atom)
-        if a_stereo is not None and isinstance(a_stereo, Octahedral):
-            atom_idx = map_num_idx_dict[atom]
-            for rd_n in mol.GetAtomWithIdx(atom_idx).GetNeighbors():
-                mol.RemoveBond(rd_n.GetIdx(), atom_idx)
-
-            for a in (1, 5, 6, 3, 4, 2):
-                a = a_stereo.atoms[a]
-                mol.AddBond(
-                    atom_idx,
-                    map_num_idx_dict[a],
-                )
-
     for atom in graph.atoms:
         a_stereo = graph.get_atom_stereo(atom)
         atom_idx = map_num_idx_dict[atom]
@@ -314,10 +296,26 @@ def stereo_mol_graph_to_rdmol(
         elif a_stereo is not None and isinstance(a_stereo, Octahedral):
             rd_atom.SetChiralTag(Chem.ChiralType.CHI_OCTAHEDRAL)
             rd_atom.SetHybridization(Chem.HybridizationType.SP3D2)
-            if a_stereo.parity == 1:
-                rd_atom.SetUnsignedProp("_chiralPermutation", 1)
-            elif a_stereo.parity == -1:
-                rd_atom.SetUnsignedProp("_chiralPermutation", 2)
+            if a_stereo.parity is not None:
+                from stereomolgraph.rdmol2graph import RDMol2StereoMolGraph
+
+                rd_nbr_order = tuple([idx_map_num_dict[nbr.GetIdx()]
+                                      for nbr in rd_atom.GetNeighbors()])
+                # the permutation label is chosen for the neighbour order the
+                # molecule has. Re-creating the bonds in the order of OH1
+                # instead disturbs the neighbour order of the ligand atoms,
+                # which cannot be right for two bonded octahedral centres.
+                oct_orders = (
+                    RDMol2StereoMolGraph._oct_atom_order_permutation_dict
+                )
+                for val, perm in oct_orders.items():
+                    # the descriptor the import creates for this label
+                    rd_nbr_perm = tuple([rd_nbr_order[i] for i in perm])
+                    if a_stereo == Octahedral(
+                        (a_stereo.atoms[0], *rd_nbr_perm), 1
+                    ):
+                        rd_atom.SetUnsignedProp("_chiralPermutation", val)
+                        break
 
     for b_stereo in (bs for bs in graph.bond_stereo.values() if bs):
         a1, a2 = b_stereo.atoms[2], b_stereo.atoms[3]
